@@ -16,7 +16,7 @@ import (
 // characters that are layout (tab, CR, VT, FF, U+0085, U+00A0) and characters that merely look like it.
 var c17Extra = []string{"9223372036854775807", "9223372036854775808", "18446744073709551615", "18446744073709551616",
 	"0x7FFFFFFFFFFFFFFF", "0x8000000000000000", "0XFFFFFFFFFFFFFFFF", "0777777777777777777777", "01000000000000000000000", "01777777777777777777777",
-	"print_x", "nil_", "or_1", "def_x", "not_y", "true_", "1e308", "1e309", "# c\r", "# c\n", "#\r", "# c", "\t", "\r", "\v", "\f", "\u0085", "\u00a0", "\u1680", "\u2003", "\u2028", "\u202f", "\u3000", "\ufeff"}
+	`"a\\"`, `"\\"`, `"c:\\d\\"`, `"\\\""`, "print_x", "nil_", "or_1", "def_x", "not_y", "true_", "1e308", "1e309", "# c\r", "# c\n", "#\r", "# c", "\t", "\r", "\v", "\f", "\u0085", "\u00a0", "\u1680", "\u2003", "\u2028", "\u202f", "\u3000", "\ufeff"}
 
 var subC17 = newRefSub("c17.accept")
 
@@ -113,7 +113,7 @@ func init() {
 	fw.Register(&fw.Check{
 		ID:    "C17",
 		Level: "model_checking",
-		Rule: "bounded-exhaustive: (a) every token string of length <=L (quick 4, thorough 5) over a 33-token vocabulary (one spelling per token kind, bind's contextual identifiers, an invalid literal) at toplevel and inside `def a { }`, and every string of length <=3 over that vocabulary extended by 34 symbols: identifiers that begin with a keyword (print_x, nil_, or_1 ...), boundary literals (2^63-1, 2^63, 2^64-1, 2^64 in decimal / hex / octal, 1e308, 1e309), comments ended by CR / LF / end of input, and layout and look-alike space characters; " +
+		Rule: "bounded-exhaustive: (a) every token string of length <=L (quick 4, thorough 5) over a 33-token vocabulary (one spelling per token kind, bind's contextual identifiers, an invalid literal) at toplevel and inside `def a { }`, and every string of length <=3 over that vocabulary extended by 38 symbols: strings ending in escaped backslashes, identifiers that begin with a keyword (print_x, nil_, or_1 ...), boundary literals (2^63-1, 2^63, 2^64-1, 2^64 in decimal / hex / octal, 1e308, 1e309), comments ended by CR / LF / end of input, and layout and look-alike space characters; " +
 			"(b) grammar sentences (every statement form, 9 expression shapes, bodies, nesting <=2; singles and ordered pairs with and without ';') and every single-token delete / insert / replace / transpose at every position; " +
 			"(c) pairs S1 S2 where S1 is a var/eval/print statement with every one-token fault and S2 starts with var/def/eval/print and has its own fault. Oracle: reference recursive-descent parser accepts <=> Parse accepts <=> log empty; " +
 			"rejection => nil results, >=1 well-formed diagnostic, first diagnostic at the reference's first offending token; (c) a diagnostic located inside S2.",
